@@ -315,7 +315,7 @@ Definition store := list entry.
 Definition import (p : ptree) (st : store) : store :=
   fold_left (fun s e => al_set (fst e) (snd e) s) (pleaves p) st.
 
-Inductive rres := ROk | RCorrupted | RProofFail | RNotPending | RNoRestore.
+Inductive rres := ROk | RCorrupted | RProofFail | RNotPending | RNoRestore | RInProgress.
 
 Section Restore.
   Variable H : bytes -> bytes.            (* node hash *)
@@ -339,6 +339,7 @@ Section Restore.
   Inductive event :=
   | EChunk (idx : nat) (b : bytes)     (* RestoreChunk(idx, reader over b) *)
   | EAbort                             (* AbortRestore + AbortMultipartInsert *)
+  | EAbortR                            (* AbortRestore alone: the multipart insert keeps its nodes *)
   | EStart.                            (* StartMultipartInsert + StartRestore *)
 
   Definition rm (i : nat) (l : list nat) : list nat := filter (fun j => negb (Nat.eqb j i)) l.
@@ -346,9 +347,10 @@ Section Restore.
   Definition rstep (root : bytes) (digests : list bytes) (s : rstate) (e : event) : rstate * rres :=
     match e with
     | EStart =>
-        if active s then (s, RNoRestore)               (* ErrRestoreAlreadyInProgress *)
+        if active s then (s, RInProgress)              (* ErrRestoreAlreadyInProgress *)
         else (mkr true (seq 0 (length digests)) (db s), ROk)
     | EAbort => (mkr false [] [], ROk)                 (* nodes of the multipart log removed *)
+    | EAbortR => (mkr false [] (db s), ROk)            (* restorer.go:43-51 *)
     | EChunk i b =>
         if negb (active s) then (s, RNoRestore)        (* restorer.go:72 *)
         else if negb (existsb (Nat.eqb i) (pend s)) then (s, RNotPending)   (* :77 *)
@@ -364,6 +366,11 @@ Section Restore.
                  end
              end
     end.
+
+  (* NodeDB.Finalize of the restored version: the root must be the one whose
+     chunks were imported; what becomes readable is what was imported *)
+  Definition rfinalize (root r : bytes) (s : rstate) : option store :=
+    if bytes_eqb r root then Some (db s) else None.
 
   Definition rrun (root : bytes) (digests : list bytes) (s : rstate) (evs : list event) : rstate :=
     fold_left (fun s e => fst (rstep root digests s e)) evs s.
